@@ -554,6 +554,83 @@ fn quota_family(seed: u64, fut: bool) -> (Scenario, SchedCfg) {
     (s, c)
 }
 
+/// `futpark.pause` (C14): the receive that frees space is the last event for a while. One
+/// stream is the bottleneck; its consumer takes k values and then waits (on a harness latch,
+/// outside the queue) until every producer has had all of its N + k values accepted, which
+/// is only possible if the parked producer tasks are woken by those k receives - through
+/// poll, the direct try_recv / recv methods, or the single-consumer view path. Nothing else
+/// happens that could wake them: no later receive, no drop.
+pub fn futpark_pause(seed: u64) -> (Scenario, SchedCfg) {
+    let mut g = Gen::new(seed);
+    let flavour = pick_flavour(&mut g.rng);
+    let cap = *g.rng.pick(&[0u64, 1, 2, 2, 3]);
+    let q = fut_queue(&mut g.rng, flavour, cap);
+    let mut s = Scenario::new("futpark.pause", q);
+    let n = s.queue.capacity() as u32;
+    let k = g.rng.range(1, 3) as u32;
+    let total = n + k;
+    // an extra stream whose consumer simply drains everything (broadcast only)
+    let extra = flavour == Flavour::Bcast && g.rng.chance(1, 2);
+    let mut extra_h = 0;
+    if extra {
+        extra_h = g.h();
+        s.setup.push(Op::AddStream { h: 1, new: extra_h });
+    }
+    let uni = g.rng.chance(1, 2);
+    if uni {
+        s.setup.push(Op::IntoSingle { h: 1 });
+    }
+    let np = g.rng.range(1, 2) as u32;
+    let mut senders = vec![0u32];
+    for _ in 1..np {
+        let h = g.h();
+        s.setup.push(Op::CloneSender { h: 0, new: h });
+        senders.push(h);
+    }
+    // latches: 0 = bottleneck consumer done, 1 = extra consumer done, 6.. = producer i done
+    let first = g.rng.range(0, total as u64) as u32;
+    for (i, &h) in senders.iter().enumerate() {
+        let share = if np == 1 { total } else if i == 0 { first } else { total - first };
+        let mut prog = Vec::new();
+        if share > 0 {
+            prog.push(Op::Produce { h, n: share, api: SendApi::Sink, max_retry: UNLIMITED });
+        }
+        prog.push(Op::Signal(6 + i as u8));
+        prog.push(Op::Await(0));
+        if extra {
+            prog.push(Op::Await(1));
+        }
+        prog.push(Op::DropSender { h });
+        s.threads.push(ThreadSpec { handles: vec![h], prog, spawned: false });
+    }
+    let api = *g.rng.pick(&[RecvApi::Poll, RecvApi::TryRecv, RecvApi::Recv]);
+    let api2 = *g.rng.pick(&[RecvApi::Poll, RecvApi::TryRecv, RecvApi::Recv]);
+    let mut prog = vec![Op::Consume { h: 1, api, quota: k, max_empty: UNLIMITED, after_end: 0 }];
+    for i in 0..np {
+        prog.push(Op::Await(6 + i as u8));
+    }
+    prog.push(Op::Consume { h: 1, api: api2, quota: n, max_empty: UNLIMITED, after_end: 0 });
+    prog.push(Op::Signal(0));
+    s.threads.push(ThreadSpec { handles: vec![1], prog, spawned: false });
+    if extra {
+        let api = *g.rng.pick(&[RecvApi::Poll, RecvApi::TryRecv, RecvApi::Recv]);
+        s.threads.push(ThreadSpec {
+            handles: vec![extra_h],
+            prog: vec![Op::Consume { h: extra_h, api, quota: total, max_empty: UNLIMITED, after_end: 0 }, Op::Signal(1)],
+            spawned: false,
+        });
+    }
+    s.probe = true;
+    if g.rng.chance(1, 2) {
+        s.spurious_poll = 40;
+    }
+    common_faults(&mut g, &mut s);
+    s.tags = common_tags(&s);
+    s.tags.push("senders_hold".into());
+    let c = sched_for(&mut g.rng, &s, 40);
+    (s, c)
+}
+
 /// `disconnect`: the last senders' final sends and drops race consumers on every entry point.
 pub fn disconnect(seed: u64) -> (Scenario, SchedCfg) {
     let mut g = Gen::new(seed);
